@@ -30,6 +30,8 @@ def run(report, index, tier):
         'the token regexes), and the semicolon-dropping contexts.')
     rule_skeleton(report, index, 'R02.1')
     guard_tokens(report, index, M, 'R02.6')
+    from . import c15
+    c15.rules(report, index)
     from .arrays import array_rule
     array_rule(report, index, M, 'R02.1e', bound=8)
     E = FusionEngine(index)
@@ -94,6 +96,25 @@ def r023(report, index, E, M):
                         nexts = {(nt.name if nt.kind == 'layout' and
                                   nt.name in handled else 'T', 'tok')}
                     sites.append((kind, cls, role, prevs, nexts))
+        # the statements whose body slot can hold the empty statement, with
+        # the mark their definition prints before the body
+        body_parents = {}
+        for pname, pterms in D.defs.items():
+            pt_ = [t for t in pterms if not (
+                t.kind == 'attr' and t.cls == 'CommentsAttr') and
+                t.kind != 'struct']
+            for i, t in enumerate(pt_):
+                if t.kind != 'attr' or not isinstance(t.attr, str):
+                    continue
+                sh = PG.attr_shape(pname, t.attr)
+                if sh[0] in ('none', 'str') or 'body' not in sh[3] or \
+                        'EmptyStatement' not in sh[1]:
+                    continue
+                m = 'T'
+                if i > 0 and pt_[i - 1].kind == 'layout' and \
+                        pt_[i - 1].name in handled:
+                    m = pt_[i - 1].name
+                body_parents.setdefault(m, set()).add(pname)
         for kind, cls, role, prevs, nexts in sites:
             if not FOL.get(kind):
                 continue    # not reachable
@@ -101,7 +122,14 @@ def r023(report, index, E, M):
                 prevs = {s for s, _ in PRE[kind]}
             if nexts is None:
                 nexts = set(FOL[kind])
+            pairs = []
             for p in sorted(prevs):
+                if role == 'body':
+                    for parent in sorted(body_parents.get(p, {'?'})):
+                        pairs.append((p, parent))
+                else:
+                    pairs.append((p, None))
+            for p, parent in pairs:
                 for (n, after) in sorted(nexts):
                     if n == 'T' and after != 'tok':
                         continue
@@ -117,8 +145,10 @@ def r023(report, index, E, M):
                     out = process_run(E.T, handlers, run, before, aft,
                                       M.astmodel)
                     emitted = ';' in out
-                    construct = '%s%s: [%s] ; [%s] after=%s drop_semi=%s' % (
-                        cls, '@' + role if role else '', p, n, after, drop)
+                    construct = '%s%s%s: [%s] ; [%s] after=%s drop_semi=%s' % (
+                        cls, '@' + role if role else '',
+                        (' of ' + parent) if parent else '', p, n, after,
+                        drop)
                     if role == 'list':
                         rule.ok(construct, 'stand-alone empty statement '
                                 '(exempt)')
@@ -143,7 +173,8 @@ def r023(report, index, E, M):
                                     n, n))
                     key = '%s%s prev=%s next=%s after=%s' % (
                         'statement terminator' if role is None else
-                        cls + '@' + role, '' if role else '', p, n, after)
+                        cls + '@' + role,
+                        (' of %s' % parent) if parent else '', p, n, after)
                     if drop is False:
                         key += ' (drop_semi=False)'
                     rule.check(emitted or not need, key, construct,
